@@ -81,7 +81,7 @@ Print Assumptions C10_changed_readded.
    [f0, f1] again and f1 was never touched: the task executes (the dep set changed) with `changed` = []
    although f1 was not a dependency of the last successful execution -- save_success never drops the
    state of a file that left file_dep, and the loop only compared states.  The repaired code lists f1. *)
-Definition before_fixC : ver := {| fixA := true; fixB := true; fixC := false |}.
+Definition before_fixC : ver := {| fixA := true; fixB := true; fixC := false; fixL := false |}.
 Definition d01r : tdef := {| file_dep := [0; 1]%N; targets := []; uptodate := []; act_values := []; act_result := None |}.
 Definition d0r : tdef := {| file_dep := [0%N]; targets := []; uptodate := []; act_values := []; act_result := None |}.
 Definition readded_ops : list op := [Write 0 0; Write 1 1; SetDef 7 d01r; SaveOk 7; SetDef 7 d0r; SaveOk 7; SetDef 7 d01r]%N.
